@@ -7,6 +7,10 @@ steps (`Act`s) of the model.  After every op the workers the trace has not pause
 canonical order (newest incarnation first, sender before receiver) — `autorun` below does exactly
 what `c08World.autorun` does in go/eng/c08_registry_test.go.  Everything is a composition of
 `Registry.step`, so every driver run is a fine-step run and the theorems of Props/C08 apply to it.
+
+Ops: `begin [nogap]`, `open <c> [fail]`, `open! <c>`, `break <k>`, `selfend <k>` (= `Act.selfEnd k`: the upstream `Send` of
+receiver `k` fails, the receiver ends on its own and the shared latch ends the sender too; no-op unless receiver `k` is
+running and its latch has not fired), `pause <point> <k>`, `resume <point> <k>`, `wm <k> <n>`, `settle`, `end`.
 -/
 namespace Drv.Registry
 open S2S.Registry
@@ -172,6 +176,12 @@ def step (d : DSt) (line : String) : DSt × String :=
   | ["break", k] =>
     match k.toNat? with
     | some k => let d := autorun fuel (app d (.brk k)); (d, observe d false)
+    | none => (d, "bad-op")
+  | ["selfend", k] =>
+    -- the upstream `Send` of receiver `k` fails: the shared latch of incarnation `k` trips; then the canonical autorun
+    -- (sender of `k` closes and unregisters, then the receiver of `k` runs its ordinary, un-cancelled clean-up)
+    match k.toNat? with
+    | some k => let d := autorun fuel (app d (.selfEnd k)); (d, observe d false)
     | none => (d, "bad-op")
   | ["pause", p, k] =>
     match k.toNat? with
